@@ -64,7 +64,35 @@ def run_one(engine, scenario, prop, tolerate):
              'stats': {}}
     Harness exceptions propagate (they are not verdicts).
     """
-    return engine.execute(scenario, prop=prop, tolerate=frozenset(tolerate))
+    try:
+        return engine.execute(scenario, prop=prop,
+                              tolerate=frozenset(tolerate))
+    except Exception as e:
+        # An exception that comes out of desper code while the oracle was
+        # querying it (a call the engine did not think could raise) is the
+        # library's doing, not the harness's: report it as a violation of the
+        # property under check. Anything raised by the harness itself
+        # propagates (exit 2).
+        where = None
+        tb = e.__traceback__
+        root = os.path.join(os.path.realpath(kernel.REPO), 'desper') + os.sep
+        while tb is not None:
+            fn = os.path.realpath(tb.tb_frame.f_code.co_filename)
+            if fn.startswith(root):
+                where = (os.path.relpath(fn, root),
+                         tb.tb_frame.f_code.co_name, tb.tb_lineno)
+            tb = tb.tb_next
+        if where is None:
+            raise
+        detail = (f'{type(e).__name__}: {str(e)[:200]} raised by '
+                  f'desper/{where[0]}:{where[2]} ({where[1]}) during a query '
+                  f'of the oracle')
+        return {'violation': {'props': [prop], 'kind': 'unexpected_exception',
+                              'detail': detail, 'op': None},
+                'digest': 'exc-%016x' % kernel.h64(
+                    'exc', type(e).__name__, where[0], where[1]),
+                'nontrivial': False, 'probes': {}, 'faults': {}, 'known': {},
+                'stats': {}, 'trace_tail': []}
 
 
 def violates(res, prop):
